@@ -2,7 +2,7 @@
    numbering / tiling of the fragments of one out-packet under a constant fragment size. *)
 From Coq Require Import List NArith ZArith Arith Bool Lia.
 From RecordUpdate Require Import RecordUpdate.
-From Iodine Require Import Generated.SrcConsts Base Codec Hostname DnsName DnsMsg Domain Server ServerFrame ServerRefine.
+From Iodine Require Import Generated.SrcConsts Base Codec Hostname DnsName DnsMsg Domain Server ServerRings ServerRefine.
 Import ListNotations.
 Local Open Scope N_scope.
 
